@@ -67,9 +67,10 @@ def run(run):
                     stats["relayout_relation:" + rel] += 1
                     if rel != "true":
                         outside.append(dict(tight=tight, layout=base_text))
-                    for j in range(nlay + 1):
-                        # (the last one: one token per line, flush left)
-                        text = GQ.layout(q.lexemes, q.kinds, rng, aggressive=True) if j < nlay else GQ.column_layout(q.lexemes, q.kinds)
+                    for j in range(nlay + 2):
+                        # (the last two: one token per line, flush left; the same with blank lines between the tokens)
+                        text = (GQ.layout(q.lexemes, q.kinds, rng, aggressive=True) if j < nlay else
+                                GQ.column_layout(q.lexemes, q.kinds) if j == nlay else GQ.paragraph_layout(q.lexemes, q.kinds, rng))
                         lex_pair(text)
                         rel = d.call("relayout", tight, text)[0]
                         stats["relayout_relation:" + rel] += 1
@@ -104,7 +105,7 @@ def run(run):
                             run.sample(dict(base=base_text, layout=text, results=sum(wantc.values())))
                         # the same re-layout as the body of a rule file: both rule-file readers flatten it line by line
                         # (a literal that spans lines is changed by both readers: the recorded finding of C18, not a layout question)
-                        if "\n" in text and j < 2 and not any("\n" in lx or "\r" in lx for lx in q.lexemes):
+                        if "\n" in text and (j < 2 or j >= nlay) and not any("\n" in lx or "\r" in lx for lx in q.lexemes):
                             for path in ("ci-reader", "file-reader"):
                                 if path == "ci-reader":
                                     er = h.call(op="rule", text=text)
